@@ -121,8 +121,11 @@ class InotifyEmitter(EventEmitter):
         )
 
     def on_thread_stop(self) -> None:
-        if self._inotify:
-            self._inotify.close()
+        # The emitter stops itself when the watched path is deleted, possibly while
+        # unschedule()/stop() is stopping it too: use one consistent reference.
+        inotify = self._inotify
+        if inotify:
+            inotify.close()
             self._inotify = None
 
     def queue_events(self, timeout: float, *, full_events: bool = False) -> None:
